@@ -167,7 +167,9 @@ def run(prog):
                     break
     out.append(inst("BT", "%s:BT5:lca" % fn.npath, VIOLATION if errs else OK, fn, None,
                     "; ".join(errs) if errs else "l == r ↦ l; else query(min(first(l), first(r)), max(..))"))
-    # BT6: LeastCommonAncestor::new — first occurrences in the Euler tour of the breadth-first labelling, minimum tree
+    # BT6: LeastCommonAncestor::new — index_map[v] is a position at which v occurs in the Euler tour of the breadth-first
+    # labelling (first or last occurrence are equally good: any tour segment between u and v passes their common ancestor
+    # and nothing above it), and the range structure takes minima
     fn = find("new", "LeastCommonAncestor")
     te = fn.terms
     errs = []
@@ -181,13 +183,9 @@ def run(prog):
         tgt, val = strip(st[0][1]), strip(st[0][2])
         if not (show(tgt).endswith(".0.1)") and show(val).endswith(".0.0}")):
             errs.append("the table stores %s at %s, expected position i at [node of position i]" % (show(val)[:40], show(tgt)[:50]))
-        guard = [(show(strip(c)), v) for c, v, _, _ in te.facts_at(st[0][0])]
-        if not any(sc.startswith("is_none(index(") and v != "0" for sc, v in guard):
-            errs.append("the position is written even when the node already has one: the table holds *last* occurrences, and the "
-                        "range between two last occurrences need not contain the common ancestor")
     b = [c for c in te.calls if c.callee.name == "build"]
     if len(b) != 1 or "Min" not in show(b[0].args[1]):
         errs.append("the range structure is not a minimum tree over the tour")
-    out.append(inst("BT", "%s:BT6:first-occurrence" % fn.npath, VIOLATION if errs else OK, fn, None,
-                    "; ".join(errs) if errs else "index_map[v] = first position of v in the Euler tour (BFS labels); range-minimum tree over the tour"))
+    out.append(inst("BT", "%s:BT6:occurrence" % fn.npath, VIOLATION if errs else OK, fn, None,
+                    "; ".join(errs) if errs else "index_map[v] = a position of v in the Euler tour of the BFS labelling (any occurrence serves); range-minimum tree over the tour"))
     return out
